@@ -2,5 +2,6 @@ SPECIFICATION Spec
 INVARIANT DivLaws
 INVARIANT RoundLaws
 INVARIANT VecLaws
+INVARIANT DotLaws
 INVARIANT EmitDone
 CHECK_DEADLOCK FALSE
